@@ -331,6 +331,18 @@ func (s *Store[H]) DeleteRange(ctx context.Context, from, to uint64) error {
 		)
 	}
 
+	if updateHead && !updateTail {
+		// Move the on-disk head pointer below the range before deleting anything: a crash in the
+		// middle of the deletion must not leave it pointing above a hole.
+		newHead, err := s.getByHeight(ctx, from-1)
+		if err != nil {
+			return fmt.Errorf("header/store: getting new head %d: %w", from-1, err)
+		}
+		if err := writeHeaderHashTo(ctx, s.ds, newHead, headKey); err != nil {
+			return fmt.Errorf("header/store: writing headKey: %w", err)
+		}
+	}
+
 	// Delete the headers without automatic tail updates
 	actualTo, _, deleteErr := s.deleteRangeRaw(ctx, from, to)
 	if wipe && deleteErr == nil {
@@ -367,6 +379,9 @@ func (s *Store[H]) DeleteRange(ctx context.Context, from, to uint64) error {
 					fmt.Errorf("header/store: setting head to %d: %w", newHeadHeight, err),
 				)
 			}
+		} else if err := writeHeaderHashTo(ctx, s.ds, head, headKey); err != nil {
+			// nothing was deleted: the pointer goes back to the unchanged head
+			return errors.Join(deleteErr, fmt.Errorf("header/store: restoring headKey: %w", err))
 		}
 	}
 
